@@ -431,8 +431,18 @@ B2 == M(<<
         <<"permissions", M(<< <<"contents", S("read")>> >>)>>,
         <<"uses", S(CallUses)>>,
         <<"with", M(<< <<"target", S("x")>>, <<"ref", E("github.ref")>> >>)>>,
-        <<"secrets", M(<< <<"token", E("github.token")>> >>)>> >>)>>,
-     <<"call2", M(<< <<"uses", S(CallUses)>>, <<"secrets", S("inherit")>> >>)>> >>)>> >>)
+        <<"secrets", M(<< <<"token", E("github.token")>> >>)>>,
+        \* everything else a job that calls a reusable workflow may carry
+        <<"concurrency", M(<< <<"group", S("call-${{ github.ref }}")>>, <<"cancel-in-progress", E("github.ref == 'x'")>> >>)>>,
+        <<"strategy", M(<<
+           <<"matrix", M(<< <<"target", Q(<<S("a"), S("b")>>)>>,
+                            <<"include", Q(<< M(<< <<"target", S("c")>>, <<"extra", S("d")>> >>) >>)>>,
+                            <<"exclude", Q(<< M(<< <<"target", S("b")>> >>) >>)>> >>)>>,
+           <<"fail-fast", E("github.ref == 'x'")>>,
+           <<"max-parallel", E("fromJSON(format('{0}', 2))")>> >>)>> >>)>>,
+     <<"call2", M(<< <<"uses", S(CallUses)>>, <<"secrets", S("inherit")>>,
+                     <<"concurrency", S("call2-${{ github.ref }}")>>, <<"permissions", S("read-all")>>,
+                     <<"strategy", M(<< <<"matrix", E(AnyObj)>>, <<"fail-fast", S("true")>>, <<"max-parallel", S("1")>> >>)>> >>)>> >>)>> >>)
 
 \* B3: sibling configurations - mapping forms of every section that has one
 FullContainer(img) ==
